@@ -1215,6 +1215,10 @@ fn validate_archive(path: &str, check_checksums: bool, threads: Option<usize>) -
             files.len() - errors,
             format_bytes(total_size)
         );
+        anyhow::bail!(
+            "Archive validation failed: {errors} of {} file(s) could not be read",
+            files.len()
+        );
     }
 
     Ok(())
